@@ -19,7 +19,7 @@ VERIF = os.path.dirname(os.path.dirname(os.path.abspath(__file__)))
 EXTRACT = os.path.join(VERIF, 'tsa', 'extract', 'tsa-extract')
 CACHE = os.path.join(VERIF, '.cache')
 RESOURCE_DIR = '/usr/lib/llvm-14/lib/clang/14.0.6'
-EXTRACTOR_VERSION = '4'
+EXTRACTOR_VERSION = '5'
 
 
 class AnalysisBroken(Exception):
@@ -158,6 +158,11 @@ def build(repo, verbose=True):
             d = json.load(open(results[rel]))
             for f in d['functions']:
                 fid = f['id']
+                old = merged['functions'].get(fid)
+                if old is not None and (old.get('file'), old.get('line')) != (f.get('file'), f.get('line')):
+                    # same signature defined in another file (main, static helpers): keep both
+                    fid = '%s@%s' % (fid, f.get('file'))
+                    f['id'] = fid
                 merged['func_units'].setdefault(fid, []).append(rel)
                 if fid not in merged['functions']:
                     f['unit'] = rel
